@@ -1578,6 +1578,17 @@ where
         self.generation.fetch_add(1, Ordering::Relaxed);
     }
 
+    /// Continues the generation count of a TDS that this one replaces.
+    ///
+    /// Generation-keyed consumers (e.g. `ConvexHull`) compare the value they captured with the
+    /// current one. When a whole TDS is swapped for a freshly built one, the fresh counter starts
+    /// over and can land on a captured value again; moving it past the predecessor's value keeps
+    /// the count monotone across the replacement.
+    pub(crate) fn continue_generation_after(&self, previous_generation: u64) {
+        self.generation
+            .fetch_max(previous_generation.saturating_add(1), Ordering::Relaxed);
+    }
+
     /// Gets the current generation value.
     ///
     /// This can be used by external code to detect when the triangulation has changed.
